@@ -196,7 +196,7 @@ func (h *handler) Generate(c *projgen.Conc, e *projgen.REdge, path []*projgen.RE
 		h.addInfra(err.Error())
 		return projgen.GenOutcome{Class: "crash"}
 	}
-	replay := map[string]any{"history": projgen.PathString(path), "cfg": e.SSt.Cfg, "seed": c.Seed}
+	replay := projgen.ReplayFromPath(c, path)
 	first, hs, ok := h.multiRun(c.Root, func() error { return c.Restore(pre) }, label, replay)
 	if !ok || !first.OK() || !e.TSt.Ok {
 		return first
@@ -385,6 +385,24 @@ func (h *handler) richSchemas(n int, seed int64) {
 	}
 	projgen.Parallel(n, 3, func(i int) {
 		row := rows[i%len(rows)].Clone()
+		if i >= len(rows) {
+			// spread of configurations: seeded flips of the boolean options, layouts, worker_limit
+			x := uint64(seed)*0x9E3779B97F4A7C15 + uint64(i)*0xBF58476D1CE4E5B9
+			next := func(n uint64) uint64 {
+				x ^= x << 13
+				x ^= x >> 7
+				x ^= x << 17
+				return x % n
+			}
+			for _, f := range projgen.C17YamlBool {
+				if f != "skip_validation" && next(3) == 0 {
+					row[f] = !row.B(f)
+				}
+			}
+			row["execFollow"] = next(2) == 0
+			row["resolver"] = []string{"single", "follow"}[next(2)]
+			row["worker_limit"] = []int{0, 1, 2, 8}[next(4)]
+		}
 		name := fmt.Sprintf("c18_rich%d", i)
 		root := projgen.GenRoot(name)
 		_ = os.RemoveAll(root)
@@ -432,7 +450,32 @@ func (h *handler) richSchemas(n int, seed int64) {
 	})
 }
 
+// runReplayFile re-runs one recorded history (./check C18 --replay file).
+func runReplayFile(file string) {
+	g, p, seed, pairs, files, err := projgen.LoadReplay(file)
+	if err != nil {
+		vlib.Infra("replay: %v (feature-rich schema scenarios are re-run by ./check C18 with the recorded VERIF_SEED)", err)
+	}
+	if _, err := projgen.BuildPgen(); err != nil {
+		vlib.Infra("%v", err)
+	}
+	c := vlib.NewCheck("C18", "exploration")
+	h := &handler{c: c, g: g, variants: variantsThorough}
+	rep := &projgen.Replayer{G: g, H: h, Name: "c18_replay", Seed: seed, Pairs: pairs, Files: files, Workers: 1}
+	rep.Run(map[string]*projgen.Trie{g.Inits[0]: projgen.PathTrie([][]*projgen.REdge{p})})
+	fmt.Printf("C18 replay: %s: %d Generate steps, %d generator processes\n", projgen.PathString(p), h.steps, h.runs)
+	if len(rep.Errs)+len(h.infra) > 0 {
+		vlib.Infra("%v %v", rep.Errs, h.infra)
+	}
+	c.AddTraces(1)
+	c.Finish()
+}
+
 func main() {
+	if rp := os.Getenv("VERIF_REPLAY"); rp != "" {
+		runReplayFile(rp)
+		return
+	}
 	c := vlib.NewCheck("C18", "exploration")
 	thorough := vlib.Tier() == "thorough"
 	seed := vlib.Seed()
@@ -454,7 +497,7 @@ func main() {
 	pairs := []string{"Query_f1", "T_g"}
 	h := &handler{c: c, variants: variantsQuick}
 	if thorough {
-		nSteps, nRich = 260, 60
+		nSteps, nRich = 150, 40
 		h.variants = variantsThorough
 	}
 	er, err := vlib.RunTLC(vlib.TLCOpts{Module: "MC_Project", Config: edgeCfg, Workers: 1, Scratch: scratch + "/edges", Timeout: 15 * time.Minute, HeapGB: 8})
